@@ -1258,3 +1258,198 @@ _pc = C.contract(
     note='the positional pack is the argument sequence, the keyword pack the (name, value) pairs in the order the caller wrote them '
          '(Python keeps keyword order, PEP 468); proved against the CONTRACT of pretty_call_alt, not its body')
 _pc.packs = {'args': 'ValList', 'kwargs': 'KwList'}
+
+
+# ==== extras/dataclasses.py: which fields a dataclass instance is printed with (C17) ============================================
+DC = 'prettyprinter.extras.dataclasses'
+U.uninterpreted('Factory')
+U.declare({
+    'OptVal': ('data', [('NoVal', []), ('SomeVal', [('v', 'Val')])]),                 # MISSING or a default value
+    'OptFactory': ('data', [('NoFactory', []), ('SomeFactory', [('v', 'Factory')])]),
+    'FieldDef': ('record', [('name', 'Str'), ('repr', 'Bool'), ('default', 'OptVal'), ('default_factory', 'OptFactory')]),
+    'FieldList': ('list', 'FieldDef', 'fwd'),
+    'KwSnoc': ('list', 'Kw', 'snoc'),
+})
+U.options.update({'OptVal': 'Val', 'OptFactory': 'Factory'})
+U.consts['MISSING'] = None          # `x is MISSING` reads as "the Optional is empty": the option sorts model MISSING as their empty case
+
+
+@C.spec([('v', 'Val')], 'FieldList', opaque=True)
+def fields_of(v):
+    """dataclasses.fields(v): the field definitions in declaration order"""
+    return None
+
+
+@C.spec([('v', 'Val'), ('name', 'Str')], 'Val', opaque=True)
+def attr(v, name):
+    return getattr(v, name)
+
+
+@C.spec([('f', 'Factory')], 'Val', opaque=True)
+def made(f):
+    """f(): what the default factory returns"""
+    return f()
+
+
+@C.spec([('f', 'FieldDef'), ('v', 'Val')], 'Bool')
+def shown_field(f, v):
+    """the statement of C17: repr enabled, and no default at all or a value that differs from the declared default"""
+    if not f.repr:
+        return False
+    if f.default is None and f.default_factory is None:
+        return True
+    if f.default is not None:
+        return unwrap(f.default) != attr(v, f.name)
+    return made(unwrap(f.default_factory)) != attr(v, f.name)
+
+
+@C.spec([('fs', 'FieldList'), ('v', 'Val')], 'KwList')
+def shown(fs, v):
+    """(name, value) of exactly the shown fields, in declaration order"""
+    if not fs:
+        return []
+    if shown_field(fs[0], v):
+        return cons(Kw(fs[0].name, attr(v, fs[0].name)), shown(fs[1:], v))
+    return shown(fs[1:], v)
+
+
+@C.spec([('s', 'KwSnoc'), ('f', 'KwList')], 'KwList')
+def app_kw(s, f):
+    """the pairs collected so far, followed by f"""
+    if not s:
+        return f
+    return app_kw(s[:-1], cons(s[-1], f))
+
+
+def _h_getattr(I, args, kwargs, node):
+    if len(args) == 2 and is_z3(args[0]) and I.sort_of(args[0]) == 'Val':
+        return S(I, 'attr', args[0], I.coerce(args[1], 'Str'))
+    raise OutsideSubset('getattr shape')
+
+
+def _h_pca_dc(I, args, kwargs, node):
+    """pretty_call_alt(ctx, cls, kwargs=<collected pairs>): through the CONTRACT of pretty_call_alt"""
+    kw = dict(kwargs)
+    ks = kw.get('kwargs')
+    if is_z3(ks) and I.sort_of(ks) == 'KwSnoc':
+        kw['kwargs'] = S(I, 'app_kw', ks, U.nil('KwList'))
+    return I.call_contract(C.fns[PP + ':pretty_call_alt'], list(args), kw, node)
+
+
+U.call_hooks['Factory'] = lambda I, fn, args, kwargs, node: S(I, 'made', fn)
+U.call_hooks['OptFactory'] = lambda I, fn, args, kwargs, node: S(I, 'made', I.coerce(fn, 'Factory'))      # calling MISSING raises TypeError
+_prev_getattr = _interp.BUILTINS.get('getattr')
+_interp.BUILTINS['getattr'] = lambda I, a, k, n: (_h_getattr(I, a, k, n) if I.U is U else _prev_getattr(I, a, k, n))
+C.extern[DC] = {
+    'fields': FuncVal('hook', 'fields', lambda I, a, k, n: S(I, 'fields_of', I.coerce(a[0], 'Val'))),
+    'pretty_call_alt': FuncVal('hook', 'pretty_call_alt', _h_pca_dc),
+}
+_FN = 'fncall(ctx, ident(cls_of(value)), [], map_kwdoc(shown(fields_of(value), value), nested(ctx, MULTILINE_STRATEGY_HANG)), False, None)'
+C.contract(
+    DC, 'pretty_dataclass_instance', params={'value': 'Val', 'ctx': 'Ctx'}, returns='Doc',
+    locals_={'kwargs': 'KwSnoc'},
+    ensures=[('exactly-the-shown-fields-in-declaration-order', 'implies(ctx.depth_left > 0, result == %s)' % _FN),
+             ('depth-cut-placeholder', 'implies(ctx.depth_left <= 0, result == cat([ident(cls_of(value)), LPAREN, ELLIPSIS, RPAREN]))')],
+    loops={0: dict(rest='rest_fields', inv=[('collected', 'app_kw(kwargs, shown(rest_fields, value)) == shown(fields_of(value), value)')])},
+    serves=['C17'],
+    note='proved against the CONTRACT of pretty_call_alt (every keyword argument printed, in order); `!=` between a default and the attribute '
+         'is disequality of abstract values; a default_factory is called once per print and named made(factory)')
+C.assume('dataclasses.fields(value) is the declaration-order list of field definitions with attributes name, repr, default, default_factory; '
+         'MISSING is modelled as the empty case of the two Optional attributes')
+
+
+# ==== extras/attrs.py: which attributes an attrs instance is printed with (C17) ================================================
+AT = 'prettyprinter.extras.attrs'
+U.declare({
+    'AttrDefault': ('data', [('Nothing', []), ('FactoryD', [('factory', 'Factory'), ('takes_self', 'Bool')]), ('ValueD', [('v', 'Val')])]),
+    'AttrDef': ('record', [('name', 'Str'), ('repr', 'Bool'), ('default', 'AttrDefault'), ('alias', 'OptStr')]),
+    'AttrList': ('list', 'AttrDef', 'fwd'),
+})
+U.classmap['Factory'] = ('AttrDefault', 'FactoryD')
+U.consts['NOTHING'] = U.ctor('AttrDefault', 'Nothing')()
+U.coerce_hooks = dict(getattr(U, 'coerce_hooks', {}))
+
+
+def _default_as_val(I, v):
+    """a default that is neither NOTHING nor a Factory is the default value itself"""
+    if not I.pure and not I.choose_bool(U.is_('AttrDefault', 'ValueD', v), '@plain default'):
+        raise OutsideSubset('comparison of NOTHING / a Factory object with an attribute value')
+    return U.acc('AttrDefault', 'ValueD', 'v')(v)
+
+
+U.coerce_hooks[('AttrDefault', 'Val')] = _default_as_val
+U.coerce_hooks[('Val', 'AttrDefault')] = lambda I, v: U.ctor('AttrDefault', 'ValueD')(v)      # a value compared with a default object
+
+
+@C.spec([('c', 'Cls')], 'AttrList', opaque=True)
+def attrs_of(c):
+    """cls.__attrs_attrs__: the attribute definitions in declaration order"""
+    return None
+
+
+@C.spec([('f', 'Factory'), ('v', 'Val')], 'Val', opaque=True)
+def made_self(f, v):
+    """f(instance) for a Factory(takes_self=True)"""
+    return f(v)
+
+
+@C.spec([('s', 'Str')], 'Str', opaque=True)
+def lstrip_underscores(s):
+    return s.lstrip('_')
+
+
+@C.spec([('a', 'AttrDef')], 'Str')
+def init_name(a):
+    """the __init__ argument of the attribute: its alias, else the name without leading underscores"""
+    if a.alias is not None and len(unwrap(a.alias)) > 0:
+        return unwrap(a.alias)
+    return lstrip_underscores(a.name)
+
+
+@C.spec([('a', 'AttrDef'), ('v', 'Val')], 'Bool')
+def shown_attr(a, v):
+    if not a.repr:
+        return False
+    if a.default == NOTHING:
+        return True
+    if isinstance(a.default, Factory):
+        return (made_self(a.default.factory, v) if a.default.takes_self else made(a.default.factory)) != attr(v, a.name)
+    return a.default.v != attr(v, a.name)
+
+
+@C.spec([('xs', 'AttrList'), ('v', 'Val')], 'KwList')
+def shown_attrs(xs, v):
+    if not xs:
+        return []
+    if shown_attr(xs[0], v):
+        return cons(Kw(init_name(xs[0]), attr(v, xs[0].name)), shown_attrs(xs[1:], v))
+    return shown_attrs(xs[1:], v)
+
+
+def _h_getattr2(I, args, kwargs, node):
+    if len(args) == 3 and is_z3(args[0]) and I.sort_of(args[0]) == 'AttrDef' and args[1] == 'alias' and args[2] is None:
+        return z3.simplify(U.rget('AttrDef', 'alias', args[0]))          # attrs < 22.2 has no alias: the Optional is empty then
+    return _h_getattr(I, args, kwargs, node)
+
+
+def _factory_call(I, fn, args, kwargs, node):
+    if len(args) == 1:
+        return S(I, 'made_self', fn, I.coerce(args[0], 'Val'))
+    return S(I, 'made', fn)
+
+
+U.call_hooks['Factory'] = _factory_call
+_interp.BUILTINS['getattr'] = lambda I, a, k, n: (_h_getattr2(I, a, k, n) if I.U is U else _prev_getattr(I, a, k, n))
+U.attr_hooks[('Cls', '__attrs_attrs__')] = lambda I, base: S(I, 'attrs_of', base)
+U.method_hooks[('Str', 'lstrip')] = lambda I, obj, args, kwargs, node: (S(I, 'lstrip_underscores', obj) if args == ['_'] else (_ for _ in ()).throw(OutsideSubset('lstrip shape')))
+C.extern[AT] = {'pretty_call_alt': FuncVal('hook', 'pretty_call_alt', _h_pca_dc)}
+_FNA = 'fncall(ctx, ident(cls_of(value)), [], map_kwdoc(shown_attrs(attrs_of(cls_of(value)), value), nested(ctx, MULTILINE_STRATEGY_HANG)), False, None)'
+C.contract(
+    AT, 'pretty_attrs', params={'value': 'Val', 'ctx': 'Ctx'}, returns='Doc',
+    locals_={'kwargs': 'KwSnoc'},
+    ensures=[('exactly-the-shown-attributes-in-declaration-order-under-their-init-names', 'implies(ctx.depth_left > 0, result == %s)' % _FNA),
+             ('depth-cut-placeholder', 'implies(ctx.depth_left <= 0, result == cat([ident(cls_of(value)), LPAREN, ELLIPSIS, RPAREN]))')],
+    loops={0: dict(rest='rest_attrs', inv=[('collected', 'app_kw(kwargs, shown_attrs(rest_attrs, value)) == shown_attrs(attrs_of(cls_of(value)), value)')])},
+    serves=['C17'],
+    note='proved against the CONTRACT of pretty_call_alt; attribute.default is NOTHING, a Factory (called with or without the instance) or the '
+         'default value; the keyword is the alias (attrs >= 22.2) or the name without leading underscores')
